@@ -75,6 +75,17 @@ def gen_case(rng, lay, tier):
         ops.insert(j2, {"op": "remap", "k": r2.randrange(1, ncons + 1)})
         if r2.random() < 0.5:
             ops.insert(j, {"op": "pen", "v": r2.random() < 0.5})
+    # time stamps that stand still or run backwards now and then (never by exactly 1: -1 is "none" in the log)
+    prev = None
+    for op in ops:
+        if op["op"] in ("tx", "inject"):
+            if prev is not None and r2.random() < 0.15:
+                op["ts"] = max(1, prev - r2.choice([0, 2, 5, 100]))
+            prev = op["ts"]
+    # a frame on the producer's own COB-ID reaches the producer (it listens there), then it writes and transmits again
+    psets = [j for j, op in enumerate(ops) if op["op"] == "pset"]
+    for j in sorted(r2.sample(psets, min(len(psets), 2)), reverse=True):
+        ops.insert(j, {"op": "pecho", "d": [r2.randrange(256) for _ in range(nb)], "ts": 50 + j})
     return case
 
 
